@@ -19,8 +19,14 @@ class History:
 
     def __init__(self, binary, names, tree, lock=None, structured=False, use_cache=None, base=0, maxid=None,
                  pad=0, crlf=False, unicode_prelude=False, bad=(), extra_files=None, tmp_on_other_fs=False,
-                 label=None, config_class="ok", structured_key="explicit", extensions=None, opaque=False, tmp_leftovers=False, pad_mode="spread", tmp_missing=False):
+                 label=None, config_class="ok", structured_key="explicit", extensions=None, opaque=False, tmp_leftovers=False, pad_mode="spread", tmp_missing=False, env=None):
         self.binary = binary
+        # the environment of the invocation (spec/Env.tla): where TMPDIR is, how the configuration file and the source
+        # directory are spelled, which directory the command is started in
+        self.env = dict(env or {})
+        tmp_on_other_fs = tmp_on_other_fs or self.env.get("tmp") == "otherfs"
+        tmp_missing = tmp_missing or self.env.get("tmp") == "missing"
+        tmp_leftovers = tmp_leftovers or self.env.get("tmp") == "leftovers"
         self.names = list(names)
         self.structured = structured
         self.base = base
@@ -61,8 +67,15 @@ class History:
             with open(os.path.join(self.proj.tmp, "unrelated.txt"), "w") as fh:
                 fh.write("x\n")
             os.utime(os.path.join(self.proj.tmp, "unrelated.txt"), (_t.time() - 7200, _t.time() - 7200))
+        if self.env.get("tmp") == "nonutf8":
+            self.proj.tmp = os.fsdecode(os.fsencode(self.proj.tmp) + b"/t\xff")
+            os.makedirs(self.proj.tmp)
+        elif self.env.get("tmp") == "nested":
+            self.proj.tmp = os.path.join(self.proj.tmp, "a b", "c")
+            os.makedirs(self.proj.tmp)
         self.tmp_baseline = len(self.proj.tmp_entries())
         self._apply_config_class()
+        self._apply_env()
         self.events.append({"ev": "init", "files": self._abs_tree(self.tree), "lock": self.abs_lock,
                             "maxid": self.maxid, "label": self.label, "present": self._present_list(), "bad": self._bad_list(),
                             "base": self.base, "must_fail": self.config_class != "ok", "opaque": bool(self.opaque)})
@@ -77,6 +90,41 @@ class History:
                 s["kind"] = "ignored"
             out.append(s)
         return out
+
+    def _norm_reports(self, reports):
+        """file names in Breadlog's messages are spelled as the configuration spells them (relative to the working
+        directory, with ./ and ../ components): bring them to the absolute normal form used for the generated files"""
+        base = getattr(self, "cwd", None) or os.getcwd()
+        return [(os.path.normpath(os.path.join(base, f)), ln, col) for (f, ln, col) in reports]
+
+    def _apply_env(self):
+        P, e = self.proj, self.env
+        self.cwd = None
+        self.tmp_arg = P.tmp
+        if not e or self.config_class != "ok":
+            return
+        sd = e.get("srcdir", "rel")
+        P.source_dir = {"rel": "src", "abs": P.src, "dotslash": "./src/", "updown": "src/../src"}[sd]
+        P.write_config()
+        cfg = e.get("cfg", "abs")
+        if cfg == "abs":
+            self.config_arg, self.cwd = P.config_path, None
+        elif cfg == "bare":
+            self.config_arg, self.cwd = "Breadlog.yaml", P.proj
+        elif cfg == "dotrel":
+            self.config_arg, self.cwd = "./Breadlog.yaml", P.proj
+        elif cfg == "rel":
+            self.config_arg, self.cwd = "proj/Breadlog.yaml", P.root
+        elif cfg == "updown":
+            self.config_arg, self.cwd = "../Breadlog.yaml", P.src
+        elif cfg == "dotdot":
+            self.config_arg, self.cwd = "../proj/Breadlog.yaml", P.proj
+        else:
+            raise ToolError("unknown config spelling " + cfg)
+        if e.get("tmp") == "relative":
+            if self.cwd is None:
+                self.cwd = P.root
+            self.tmp_arg = os.path.relpath(P.tmp, self.cwd)
 
     def _apply_config_class(self):
         """error classes of C16: the run must exit non-zero without changing anything"""
@@ -239,9 +287,19 @@ class History:
         start_idx = len(self.events)
         self.events.append({"ev": "start", "mode": mode, "cache": cache, "any_readable": bool(readable) and not self.opaque, "plan": plan,
                             "must_fail": self.config_class != "ok"})
-        r = bl.run_breadlog(self.binary, self.config_arg, check=(mode == "check"), tmpdir=P.tmp,
-                            roots=(P.proj, os.path.join(P.root, "tmp"), P.tmp), plan=plan, timeout=timeout, cwd=cwd,
-                            logdir=os.path.join(P.root, "tmp"))
+        r = bl.run_breadlog(self.binary, self.config_arg, check=(mode == "check"), tmpdir=self.tmp_arg,
+                            roots=(P.proj, os.path.join(P.root, "tmp"), P.tmp), plan=plan, timeout=timeout,
+                            cwd=cwd or self.cwd, logdir=os.path.join(P.root, "tmp"))
+        for o in r.events:
+            # the interposer reports paths as given (relative ones joined onto the working directory), bytes as Latin-1
+            for key in ("path", "path2"):
+                if o.get(key):
+                    pth = o[key]
+                    try:
+                        pth = pth.encode("latin-1").decode("utf-8", "surrogateescape")
+                    except (UnicodeEncodeError, UnicodeDecodeError):
+                        pass
+                    o[key] = os.path.normpath(pth)
         snap1 = bl.snapshot(snap_dirs)
         # ---- post-state
         after = {}
@@ -307,14 +365,14 @@ class History:
                     m = bl._STMT.match(text.rstrip("\r"))
                     if m:
                         line_uid[(pth, ln)] = int(m.group(5))
-            for (f, ln, col) in r.missing_reports():
+            for (f, ln, col) in self._norm_reports(r.missing_reports()):
                 if not self.opaque:
                     reported.append(line_uid.get((f, ln), -7))
             t = r.total_missing()
             total = t if t is not None else -1
         pos_match = True
         if mode == "check" and r.exit_class in (0, "nonzero") and not plan:
-            self.last_reports = (dict(before), sorted(r.missing_reports()))
+            self.last_reports = (dict(before), sorted(self._norm_reports(r.missing_reports())))
         elif mode == "edit":
             if self.last_reports is not None and self.last_reports[0] == before and r.exit_class == 0 and not plan:
                 ins = []
